@@ -2,6 +2,7 @@
 import json
 import warnings
 
+import fullstack
 import hbharness
 
 LEAN_MODULES = ["PyAirtouch.Props.C08"]
@@ -124,8 +125,82 @@ def run(ctx, deep=False):
         i, t, rt, ins, real = worst
         ctx.violation("C08:c08", "Spec.Heartbeat.c08 rejects the recorded heartbeat run (interval %d, timeout %d ticks): %s" % (i, t, real),
                       kind="history", scenario=[i, t, rt, ins], implementation_output=real, spec_verdict="c08 = false")
+    api_level(ctx, thorough)
     ctx.sample({"interval": cases[0][0], "timeout": cases[0][1], "inputs": cases[0][3], "recorded": reals[0]})
     ctx.assumptions += ["timers fire when due (virtual clock)", "socket.send()/reset_connection() of the stub return promptly / after a fixed delay"]
+
+
+# ------------------------------------------------------------------------------------------------ API level (wiring)
+DELAYS = [1, 8, 239, 245, 300, None]      # no two of them differ by exactly timeout - interval (a response exactly on a deadline)
+
+
+def _api_scenario(rng):
+    n = rng.randint(2, 6)
+    pattern = [rng.choice(DELAYS) for _ in range(n)]
+    r = rng.random()
+    if r < 0.25:
+        pattern = pattern[:rng.randint(0, n - 1)] + [None]                 # the console stops answering for good
+    elif r < 0.45:
+        pattern = [rng.choice([1, 8, 239]) for _ in range(n)]              # every heartbeat answered within 30 s
+    sc = dict(inst=fullstack.INST, version_answers=pattern, horizon=2400 * (n + 3) + rng.choice([7, 250, 1300]))
+    if rng.random() < 0.5:
+        sc["chatter"] = rng.choice([97, 701, 1999])       # unsolicited status frames: they are not heartbeat responses
+    if rng.random() < 0.3:
+        t = rng.randrange(50, 2400 * n) | 1
+        if t % 2400 in (0, 240):
+            t += 2
+        sc["faults"] = [(t, "eof")]                                         # the console closes once: the link does not stay up
+        if rng.random() < 0.5:
+            sc["faults"] = [(t - 1, "refuse"), (t, "eof"), (t + rng.choice([9, 333, 2705]), "accept")]
+    return sc
+
+
+def _api_fmt(evs):
+    return " ; ".join(" ".join(str(x) for x in e) for e in evs)
+
+
+def api_level(ctx, thorough):
+    """the real AirTouch4/5 object over the real socket: which frame is the heartbeat, what counts as its response,
+    when the connection is reset - judged by the same Spec monitor with the default 300 s / 330 s configuration"""
+    rng = ctx.rng
+    n = 120 if thorough else 16
+    cases = []
+    fixed = [dict(inst=fullstack.INST, version_answers=[None], horizon=8000),                # silent from the first heartbeat
+             dict(inst=fullstack.INST, version_answers=[None], horizon=8000, chatter=301),   # ... while status traffic goes on
+             dict(inst=fullstack.INST, version_answers=[1, None], horizon=8000),             # silent after a response
+             dict(inst=fullstack.INST, version_answers=[239], horizon=2400 * 5 + 100)]       # always answered just within 30 s
+    for gen in (4, 5):
+        for sc in fixed + [_api_scenario(rng) for _ in range(n)]:
+            cases.append((gen, sc))
+    lines = []
+    runs = []
+    for gen, sc in cases:
+        b = fullstack.run(gen, sc)
+        evs = b["hb_events"]
+        runs.append(evs)
+        lines.append("hbmon 2400 2640 %s" % _api_fmt(evs))
+    verdicts = ctx.oracle(lines)
+    worst = None
+    for (gen, sc), evs, v in zip(cases, runs, verdicts):
+        ctx.case(("api", gen, json.dumps({k: sc[k] for k in sc if k != "inst"}, sort_keys=True)))
+        ctx.count("api:resets", sum(1 for e in evs if e[0] == "reset"))
+        ctx.count("api:beats", sum(1 for e in evs if e[0] == "beat"))
+        ctx.count("api:%s" % ("link-faults" if sc.get("faults") else "link-up"))
+        if not any(e[0] == "start" for e in evs):
+            ctx.tie_broken("C08:api-console-script", "the scripted console no longer brings the AirTouch %d object to the initialised state" % gen)
+            continue
+        if v != "1" and (worst is None or len(evs) < len(worst[2])):
+            worst = (gen, sc, evs)
+    if worst is not None:
+        gen, sc, evs = worst
+        ctx.violation("C08:api:%d" % gen, "AirTouch %d over the real socket: Spec.Heartbeat.c08 (300 s / 330 s) rejects the recorded run %s (console answers to heartbeats: %s, faults %s)" % (
+            gen, _api_fmt(evs), sc.get("version_answers"), sc.get("faults")), kind="history", level="api", gen=gen,
+            scenario={k: sc[k] for k in sc if k != "inst"}, implementation_output=[list(e) for e in evs], spec_verdict="c08 = false")
+    ctx.coverage["rule"] += (
+        " API level: the real AirTouch4 / AirTouch5 object over the real socket against a scripted console whose answers to the heartbeat "
+        "requests follow a pattern (delay 1 / 8 / 239 / 245 / 300 ticks or never, per heartbeat), with and without a console-side close and a "
+        "refusing network for a while; events start / conn / beat (a console-version request written after initialisation) / resp (the console's "
+        "version answer) / reset (reset_connection called by the heartbeat manager) judged by the Spec monitor with the package's default configuration.")
 
 
 def search(ctx):
@@ -134,6 +209,14 @@ def search(ctx):
 
 
 def replay(ctx, data):
+    if data.get("level") == "api":
+        sc = dict(data["scenario"], inst=fullstack.INST)
+        if sc.get("faults"):
+            sc["faults"] = [tuple(f) for f in sc["faults"]]
+        evs = fullstack.run(data["gen"], sc)["hb_events"]
+        v = ctx.oracle(["hbmon 2400 2640 %s" % _api_fmt(evs)])[0]
+        print(evs, "-> c08 =", v)
+        return 0 if v == "1" else 1
     i, t, rt, ins = data["scenario"]
     real = hbharness.run_scenario(i, t, [tuple(x) for x in ins], reset_ticks=rt)
     v = ctx.oracle(["hbmon %d %d %s" % (i, t, " ; ".join(real))])[0]
